@@ -819,8 +819,14 @@ func (vc *VC) evalWriteTarget(env *SpecEnv, e ast.Expr, text string, add func(h,
 			if id, ok := ce.Fun.(*ast.Ident); ok && id.Name == "ghost" {
 				// ghost(name, ref)
 				gname := ce.Args[0].(*ast.Ident).Name
-				hn, hs, _, _ := vc.ghostHeap(gname, env.pkg)
-				vc.heapGet(env.st, hn, hs, nil)
+				hn, hs, gt, gg := vc.ghostHeap(gname, env.pkg)
+				var shapeT types.Type
+				if gg == nil && gt != nil {
+					if _, ok := under(gt).(*types.Slice); ok {
+						shapeT = gt
+					}
+				}
+				vc.heapGet(env.st, hn, hs, shapeT)
 				x := env.eval(ce.Args[1])
 				if x.Sort == "Iface" {
 					add(hn, "(ipay "+x.S+")")
